@@ -143,13 +143,15 @@ def parseOperand (toks : List Tok) : Option (Option Operand) :=
 def parseStmt (text : String) : PResult :=
   match lex text with
   | .ident m :: rest =>
-    let (size, rest) : Nat × List Tok :=
+    let (size, rest) : Option Size × List Tok :=
       match rest with
       | .dot :: .ident x :: rest' =>
-        if x == "b" || x == "B" then (8, rest') else if x == "w" || x == "W" then (16, rest') else (1, rest')
-      | _ => (0, rest)
-    if size == 1 then .outside
-    else if rest.any (· == .dot) || rest.any (· == .bad) then .outside
+        if x == "b" || x == "B" then (some .s8, rest') else if x == "w" || x == "W" then (some .s16, rest') else (none, rest')
+      | _ => (some .s0, rest)
+    match size with
+    | none => .outside
+    | some size =>
+    if rest.any (· == .dot) || rest.any (· == .bad) then .outside
     else
       (match parseOperand rest with
        | none => .outside
